@@ -92,6 +92,16 @@ func checkC10(c *an.Ctx) {
 					if strings.HasSuffix(l.Label, ".Env") {
 						bad = append(bad, "an env container is used as template variables: "+l.Label)
 					}
+					// the levels are configuration (+ --set + built-ins, = the runner's and the compiler's base
+					// container), task and stage: a container of any other origin among them puts a level of its
+					// own into the precedence
+					if l.Kind == "field" || l.Kind == "map" {
+						switch l.Label {
+						case "TaskCompiler.variables", "TaskRunner.variables", "Task.Variables", "Stage.Variables":
+						default:
+							bad = append(bad, "a level that is not one of configuration/--set, task, stage takes part in the precedence: "+l.Label)
+						}
+					}
 				}
 				if len(bad) > 0 {
 					c.Bad("C10.1", key+" "+eff.String(), site.call.Pos(), "variables of the %s job are layered %s: %s", site.kind, eff, strings.Join(dedup(bad), "; "))
@@ -110,6 +120,9 @@ func checkC10(c *an.Ctx) {
 	dashHandling(c, "C10.3")
 	missingKey(c, r, cc, "C10.4")
 	lateResolution(c, "C10.5")
+	// "the task fails before that command executes": a rendering error is an error of Execute that is not an
+	// exit status, and the job walk fails the task on every such error whatever allow_failure says (= C06.3)
+	executeTable(c, r, "C10.4", false)
 }
 
 func baseVariables(c *an.Ctx, r *runnerRoles, rule string) {
@@ -352,6 +365,29 @@ func configVariablesFlow(c *an.Ctx, rule string) {
 	}
 	c.Check(good, rule, an.Short(mg)+":Variables", mg.Pos(), "the source configuration's variables are merged into the destination explicitly, source on top",
 		fmt.Sprintf("Config.merge has no explicit flow from src.Variables to the destination's Variables (stores seen: %v); mergo.Merge alone keeps the destination's pre-populated container, so variables defined in configuration files are dropped", seen))
+	// the explicit merge reads the destination's own container: the reflective merge before it must not have
+	// replaced that field (library summary: mergo.Merge leaves a non-empty destination field alone unless it is
+	// given WithOverride / it is one of the …WithOverwrite variants)
+	for _, ci := range an.CallsIn(mg, "github.com/imdario/mergo.Merge", "github.com/imdario/mergo.Map", "github.com/imdario/mergo.MergeWithOverwrite", "github.com/imdario/mergo.MapWithOverwrite") {
+		name := an.ShortCallee(ci.Common())
+		overriding := strings.HasSuffix(name, "WithOverwrite")
+		args := ci.Common().Args
+		if len(args) > 2 {
+			for _, e := range an.VariadicElems(args[2]) {
+				for _, src := range an.Sources(e) {
+					if oc, ok := src.(*ssa.Call); ok {
+						on := an.ShortCallee(&oc.Call)
+						if strings.Contains(on, "WithOverride") || strings.Contains(on, "WithOverwrite") {
+							overriding = true
+						}
+					} else if ofn, ok := src.(*ssa.Function); ok && (strings.Contains(ofn.Name(), "WithOverride") || strings.Contains(ofn.Name(), "WithOverwrite")) {
+						overriding = true
+					}
+				}
+			}
+		}
+		c.Check(!overriding, rule, an.Short(mg)+":mergo-keeps-destination", ci.Pos(), "the reflective merge does not replace the destination's populated fields", "Config.merge lets mergo override the destination's fields: the destination's Variables container is replaced by the source's before the explicit merge reads it, so the variables of the configuration loaded earlier (the global one) are lost")
+	}
 	// called for both global and project configuration, before Load returns
 	load := p.Func("internal/config", "Loader", "Load")
 	glob := p.Func("internal/config", "Loader", "LoadGlobalConfig")
